@@ -17,11 +17,12 @@ THEOREMS = ["IsoVerif.Props.C16.C16_iff_rules", "IsoVerif.Props.C16.C16_sound", 
             "IsoVerif.Props.C16.C16_each_rule_duplicate_response_name"]
 HARNESS = ("hx_merge", {"HX_ENGINE": "validate"})
 DRIVER = "drv_merge"
-CASES = {"quick": 880, "thorough": 40000}
+CASES = {"quick": 1200, "thorough": 48000}
 TECHNIQUE = ("Lean 4 theorems relating an executable transcription of the selection-set validators (validate_selection_sets.rs, validate_use_of_arguments.rs, "
              "validate_argument_types.rs, visit_selection_set.rs) to an independently written declarative judgement with one Boolean rule per item of the property; "
              "differential correspondence of the transcription with the real compiler (hx_projgen projects, compiled in-process) on generated well-typed projects, single-fault "
-             "mutants of every kind and three known-defect streams; direct oracle on the compiler's own diagnostics")
+             "mutants of every kind, targeted classes (duplicate response names for all four pairs of selection kinds, required list-typed arguments on scalar and linked fields) and three "
+             "known-defect streams; direct oracle on the compiler's own diagnostics")
 LEVEL_TEXT = ("Kernel-checked, for every project and every choice of the three rule switches: the modelled validators report no diagnostic iff the declarative judgement holds "
               "(C16_iff_rules; C16_sound / C16_complete are its two directions for the rules as implemented), and for each item of the property a selection that the validators reach and that "
               "violates the item yields a diagnostic of that item's kind (C16_each_rule_*: undefined field, object without / scalar with selection set, undefined argument, missing required "
@@ -40,6 +41,12 @@ PARTIAL = ["C16_statement_at (intended rules) fails on one open witness (undefin
            "object literals are only modelled against input-object types; diagnostics are compared as sets of kinds"]
 ASSUMPTIONS = ["the projects hx_projgen generates as well-typed violate none of the un-modelled validators (measured: every unmutated case must compile)",
                "diag_kinds::KIND_TABLE maps each compiler message to the kind the model names"]
+
+# targeted classes (harness/merge: fault_duplicate_response_name, list_argument_case)
+TARGETED = ["fault:duplicate-response-name:scalar-scalar", "fault:duplicate-response-name:object-object",
+            "fault:duplicate-response-name:scalar-alias-vs-object", "fault:duplicate-response-name:object-alias-vs-scalar",
+            "fault:missing-required-argument:list-scalar", "fault:missing-required-argument:list-linked",
+            "valid:list-argument"]
 
 FAULTS = ["undefined-field", "object-without-selection-set", "scalar-with-selection-set", "undefined-argument",
           "missing-required-argument", "undeclared-variable", "unused-variable", "incompatible-value-type",
@@ -76,7 +83,12 @@ def check_distribution(dist, cases):
         n = dist.get("class:fault:" + k, 0)
         if n < need:
             return f"fault kind {k} hit only {n} times (< {need})"
-    if dist.get("class:valid", 0) * 8 < cases:
+    need_t = 15 if cases < 5000 else 150
+    for k in TARGETED:
+        n = dist.get("class:" + k, 0)
+        if n < need_t:
+            return f"targeted class {k} hit only {n} times (< {need_t})"
+    if dist.get("class:valid", 0) * 10 < cases:
         return "too few unmutated projects"
     if dist.get("class:impl=panic", 0) * 50 > cases:
         return "too many compiler panics in the generated stream"
